@@ -184,7 +184,7 @@ def decide_failure(prop, job, kern, res, wd):
     if args is not None and job.shim:
         if job.oracle:
             try:
-                expected = job.oracle(*args)
+                expected = job.oracle(*args, _tr=tr) if getattr(job.oracle, 'wants_tr', False) else job.oracle(*args)
             except Exception as e:       # oracle must not kill the verdict
                 expected = None
                 fo['oracle_error'] = repr(e)
